@@ -176,4 +176,35 @@ theorem atexit_spec (p : MP) (m : Mem) (u : List Nat) (base : Int) (h : R p m u 
 theorem init_R (size : Nat) (m : Mem) : R (MPool.init size) m [] m.live :=
   ⟨by simp [MPool.init], by simp, by simp [MPool.init], by simp [MPool.init], by simp, rfl, by simp [MPool.init]⟩
 
+/-- the caller only frees objects it holds -/
+def Contracts (sz : Nat) (p : MP) (u : List Nat) : List MpOp → Mem → Prop
+  | [], _ => True
+  | op :: rest, m =>
+    (match op with | .free x => x ∈ u | .malloc => True) ∧
+    ∀ u', mpAdmit u op (step sz p op m).1 = some u' → Contracts sz (step sz p op m).2.1 u' rest (step sz p op m).2.2
+
+theorem step_ok (sz : Nat) (p : MP) (op : MpOp) (m : Mem) (u : List Nat) (base : Int) (h : R p m u base)
+    (hc : match op with | .free x => x ∈ u | .malloc => True) :
+    ∃ u', mpAdmit u op (step sz p op m).1 = some u' ∧ R (step sz p op m).2.1 (step sz p op m).2.2 u' base := by
+  cases op with
+  | malloc => exact malloc_ok' p sz m u base h
+  | free x => exact free_ok' p sz x m u base h hc
+
+theorem run_ok (sz : Nat) : ∀ (ops : List MpOp) (p : MP) (m : Mem) (u : List Nat) (base : Int), R p m u base →
+    Contracts sz p u ops m →
+    ∃ u', mpAdmitAll u (run sz p ops m).1 = some u' ∧ R (run sz p ops m).2.1 (run sz p ops m).2.2 u' base
+  | [], p, m, u, base, h, _ => ⟨u, rfl, h⟩
+  | op :: rest, p, m, u, base, h, hc => by
+    obtain ⟨hc1, hc2⟩ := hc
+    obtain ⟨u1, ha, hr⟩ := step_ok sz p op m u base h hc1
+    obtain ⟨u2, ha2, hr2⟩ := run_ok sz rest _ _ u1 base hr (hc2 u1 ha)
+    simp only [run]
+    rcases hst : step sz p op m with ⟨an, p', m'⟩
+    rw [hst] at ha ha2 hr2
+    simp only at ha ha2 hr2 ⊢
+    rcases hrun : run sz p' rest m' with ⟨tr, p'', m''⟩
+    rw [hrun] at ha2 hr2
+    simp only at ha2 hr2 ⊢
+    exact ⟨u2, by simp only [mpAdmitAll, ha]; exact ha2, hr2⟩
+
 end Percival.Proofs.MPool
